@@ -10,8 +10,10 @@ import (
 )
 
 type Engine struct {
-	prog  *Program
-	frame *Frame
+	prog     *Program
+	frame    *Frame
+	guardOf  map[*types.Var]*guardInfo // guarded package variable -> its lock
+	lockVars map[*types.Var]*guardInfo // guard lock variable -> info
 }
 
 // FuncResult is what verifying one function produced.
@@ -95,6 +97,7 @@ func (fc *FnCtx) reset(pass int) {
 	fc.assignOrd = map[string]int{}
 	fc.wlog, fc.alog, fc.freshOnly = nil, nil, nil
 	fc.invKeys = nil
+	fc.structValDone = nil
 	if pass == 1 {
 		fc.keys = map[any]bool{}
 		fc.keyOrder = nil
@@ -219,6 +222,7 @@ func (fc *FnCtx) run() {
 		}
 	}
 	fc.get(st, allocKey, SInt, nil)
+	fc.structValsAllocated(st)
 	// axioms of every loaded contract file of this package and of packages whose contracts are used
 	fc.paramInit = map[string]Term{}
 	bindParam := func(v *types.Var) {
@@ -264,6 +268,7 @@ func (fc *FnCtx) run() {
 		fc.assume(st, t)
 	}
 	fc.assumePkgInvs(st)
+	fc.guardEntry(st)
 	fc.entry = st.clone()
 	fc.cover(st, "cover-pre", decl.Pos())
 	fc.runAnchors(st, "entry", "", 0, decl.Body.Lbrace+1, nil)
